@@ -4,6 +4,7 @@ import (
 	"go/token"
 	"go/types"
 	"sort"
+	"strconv"
 	"strings"
 
 	"golang.org/x/tools/go/ssa"
@@ -158,15 +159,123 @@ func runC04(p *an.Prog, r *an.Run, tier string) {
 	r.Floor("unsigned-methods", nUnsigned, 3)
 	checkHashCovers(p, r)
 	checkDispatchAgree(p, r, a)
+	checkParamCodecs(p, r, a)
 }
+
+// checkParamCodecs: the client signs the parameters it marshals, the pool verifies the parameters it decoded and
+// marshals again, so decode-then-encode must reproduce every parameter. That holds for plain structs; it stops holding
+// as soon as a parameter type (or a type nested in one) brings its own UnmarshalJSON / MarshalJSON / text codec that
+// fills in, normalises or drops something. No repository type reachable from a signed endpoint's parameters declares
+// one.
+func checkParamCodecs(p *an.Prog, r *an.Run, a *authCtx) {
+	seen := map[types.Type]bool{}
+	var named []*types.Named
+	var walk func(t types.Type)
+	walk = func(t types.Type) {
+		if t == nil || seen[t] {
+			return
+		}
+		seen[t] = true
+		switch x := t.(type) {
+		case *types.Named:
+			if x.Obj().Pkg() != nil && strings.HasPrefix(x.Obj().Pkg().Path(), an.Module) {
+				named = append(named, x)
+				walk(x.Underlying())
+			}
+		case *types.Pointer:
+			walk(x.Elem())
+		case *types.Slice:
+			walk(x.Elem())
+		case *types.Array:
+			walk(x.Elem())
+		case *types.Map:
+			walk(x.Key())
+			walk(x.Elem())
+		case *types.Struct:
+			for i := 0; i < x.NumFields(); i++ {
+				walk(x.Field(i).Type())
+			}
+		}
+	}
+	for _, ep := range a.endpoints {
+		for _, prm := range ep.Extra {
+			walk(prm.Type())
+		}
+	}
+	var bad []string
+	for _, n := range named {
+		for _, t := range []types.Type{n, types.NewPointer(n)} {
+			ms := types.NewMethodSet(t)
+			for _, name := range []string{"UnmarshalJSON", "MarshalJSON", "UnmarshalText", "MarshalText"} {
+				if sel := ms.Lookup(nil, name); sel != nil {
+					if f, ok := sel.Obj().(*types.Func); ok && f.Pkg() != nil && strings.HasPrefix(f.Pkg().Path(), an.Module) {
+						bad = append(bad, types.TypeString(n, func(pk *types.Package) string { return pk.Name() })+" (part of a signed request's parameters) declares "+name+" at "+p.Pos(f.Pos())+": what the pool re-marshals for verification need no longer be what the client marshalled and signed — correctly signed requests are refused, or differing requests verify alike")
+					}
+				}
+			}
+		}
+	}
+	r.Floor("param-types", len(named), 4)
+	r.Check(len(bad) == 0, "param-codec", "signed-parameters", token.NoPos, "no custom JSON/text codec on the "+itoa2(len(named))+" repository types inside signed parameters", "%s", strings.Join(dedup(bad), "; "))
+}
+
+func itoa2(i int) string { return strconv.Itoa(i) }
 
 // gateArgs returns (sig, method, id, nonce, variadic) of a gate call.
 func gateArgs(g ssa.CallInstruction) []ssa.Value {
 	args := g.Common().Args
-	if callee := g.Common().StaticCallee(); callee != nil && callee.Signature.Recv() != nil {
-		args = args[1:]
+	callee := g.Common().StaticCallee()
+	if callee != nil {
+		// a wrapper's parameters are identified by what it hands to request.Verify, not by their position (the
+		// wrapper may be a method or a function taking its dependencies as further parameters)
+		if roles, ok := wrapperRoles(callee); ok {
+			out := make([]ssa.Value, 0, 5)
+			for _, j := range roles {
+				if j >= len(args) {
+					return args
+				}
+				out = append(out, args[j])
+			}
+			return out
+		}
+		if callee.Signature.Recv() != nil {
+			args = args[1:]
+		}
 	}
 	return args
+}
+
+// wrapperRoles: for a verify wrapper, the indices of its parameters that supply (sig, method, id, nonce, args...) of
+// the request.Verify call(s) it makes; ok=false when it makes none or they disagree.
+func wrapperRoles(w *ssa.Function) ([5]int, bool) {
+	var roles [5]int
+	found := false
+	for _, c := range an.Calls(w, false) {
+		if !an.IsFunc(an.CallObj(c), pkgRequest, "Verify") {
+			continue
+		}
+		args := c.Common().Args
+		if len(args) < 5 {
+			return roles, false
+		}
+		var cur [5]int
+		for i := 0; i < 5; i++ {
+			cur[i] = -1
+			for j, prm := range w.Params {
+				if args[i] == ssa.Value(prm) {
+					cur[i] = j
+				}
+			}
+			if cur[i] < 0 {
+				return roles, false
+			}
+		}
+		if found && cur != roles {
+			return roles, false
+		}
+		roles, found = cur, true
+	}
+	return roles, found
 }
 
 func checkVerifyArgs(p *an.Prog, r *an.Run, a *authCtx, ep *Endpoint, g ssa.CallInstruction, gi int) {
@@ -394,6 +503,12 @@ func checkWrapper(p *an.Prog, r *an.Run, w *ssa.Function) {
 	if w.Signature.Recv() != nil {
 		params = params[1:]
 	}
+	if roles, ok := wrapperRoles(w); ok {
+		params = nil
+		for _, j := range roles {
+			params = append(params, w.Params[j])
+		}
+	}
 	if len(params) != 5 {
 		r.Undec("wrapper", name, w.Pos(), "verify wrapper has %d parameters, expected (sig, method, id, nonce, args...)", len(params))
 		return
@@ -551,6 +666,99 @@ func returnOnFailEdge(ret *ssa.Return, v ssa.Value) bool {
 	return false
 }
 
+// assembleSlots: the inputs of the function that builds the signed bytes — its parameters, or, when it takes one
+// parameter struct, that struct's fields in declaration order.
+type asmSlot struct {
+	prm   *ssa.Parameter
+	field int // -1: the parameter itself
+	name  string
+}
+
+func assembleSlots(asm *ssa.Function) []asmSlot {
+	var out []asmSlot
+	for _, prm := range asm.Params {
+		if st, ok := prm.Type().Underlying().(*types.Struct); ok && len(asm.Params) == 1 {
+			for i := 0; i < st.NumFields(); i++ {
+				out = append(out, asmSlot{prm, i, prm.Name() + "." + st.Field(i).Name()})
+			}
+			continue
+		}
+		out = append(out, asmSlot{prm, -1, prm.Name()})
+	}
+	return out
+}
+
+// slotReads: the values in asm that are a read of the slot (Field of the parameter, or a load of the field's address in
+// the parameter's spill slot).
+func slotReads(asm *ssa.Function, sl asmSlot) []ssa.Value {
+	var out []ssa.Value
+	spill := map[ssa.Value]bool{}
+	an.AllInstrs(asm, func(in ssa.Instruction) {
+		if st, ok := in.(*ssa.Store); ok && st.Val == ssa.Value(sl.prm) {
+			spill[st.Addr] = true
+		}
+	})
+	an.AllInstrs(asm, func(in ssa.Instruction) {
+		switch x := in.(type) {
+		case *ssa.Field:
+			if x.X == ssa.Value(sl.prm) && x.Field == sl.field {
+				out = append(out, x)
+			}
+		case *ssa.UnOp:
+			if fa, ok := x.X.(*ssa.FieldAddr); ok && x.Op == token.MUL && fa.Field == sl.field && spill[fa.X] {
+				out = append(out, x)
+			}
+		}
+	})
+	return out
+}
+
+// slotArgs: what a call of asm supplies for each slot (nil where it cannot be seen).
+func slotArgs(asm *ssa.Function, c ssa.CallInstruction) []ssa.Value {
+	slots := assembleSlots(asm)
+	args := c.Common().Args
+	out := make([]ssa.Value, len(slots))
+	for i, sl := range slots {
+		pi := -1
+		for j, prm := range asm.Params {
+			if prm == sl.prm {
+				pi = j
+			}
+		}
+		if pi < 0 || pi >= len(args) {
+			continue
+		}
+		if sl.field < 0 {
+			out[i] = args[pi]
+			continue
+		}
+		// a struct literal built for the call: the value stored into the field of the local it is loaded from
+		u, ok := args[pi].(*ssa.UnOp)
+		if !ok || u.Op != token.MUL {
+			continue
+		}
+		al, ok := u.X.(*ssa.Alloc)
+		if !ok {
+			continue
+		}
+		n := 0
+		for _, ref := range *al.Referrers() {
+			if fa, ok := ref.(*ssa.FieldAddr); ok && fa.Field == sl.field {
+				for _, r2 := range *fa.Referrers() {
+					if st, ok := r2.(*ssa.Store); ok && st.Addr == ssa.Value(fa) {
+						out[i] = st.Val
+						n++
+					}
+				}
+			}
+		}
+		if n != 1 {
+			out[i] = nil
+		}
+	}
+	return out
+}
+
 func checkHashCovers(p *an.Prog, r *an.Run) {
 	asm := p.Func("request", "assemble")
 	if asm == nil {
@@ -570,33 +778,65 @@ func checkHashCovers(p *an.Prog, r *an.Run) {
 	})
 	d := p.Derives(0, rets...)
 	var missing []string
-	for _, prm := range asm.Params {
-		if !d.HasParam(prm) {
-			missing = append(missing, prm.Name())
+	// the inputs of assemble are its parameters, or the fields of a parameter struct
+	slots := assembleSlots(asm)
+	for _, sl := range slots {
+		if sl.field < 0 {
+			if !d.HasParam(sl.prm) {
+				missing = append(missing, sl.name)
+			}
+			continue
+		}
+		okRead := false
+		for _, v := range slotReads(asm, sl) {
+			if d.HasValue(v) {
+				okRead = true
+			}
+		}
+		if !okRead {
+			missing = append(missing, sl.name)
 		}
 	}
 	// identity and nonce must enter the payload unconverted (a float64 or narrowed nonce makes neighbouring nonces sign alike)
-	exact := map[*ssa.Parameter]bool{}
+	exact := map[int]bool{}
+	isSlotValue := func(v ssa.Value) int {
+		for i, sl := range slots {
+			if sl.field < 0 {
+				if v == ssa.Value(sl.prm) {
+					return i
+				}
+				continue
+			}
+			for _, rv := range slotReads(asm, sl) {
+				if v == rv {
+					return i
+				}
+			}
+		}
+		return -1
+	}
 	an.AllInstrs(asm, func(in ssa.Instruction) {
 		if mi, ok := in.(*ssa.MakeInterface); ok {
-			if prm, ok := mi.X.(*ssa.Parameter); ok {
-				exact[prm] = true
+			if i := isSlotValue(mi.X); i >= 0 {
+				exact[i] = true
 			}
 		}
 		if cv, ok := in.(*ssa.Convert); ok {
-			if prm, ok := cv.X.(*ssa.Parameter); ok {
+			if i := isSlotValue(cv.X); i >= 0 {
 				if b, ok := cv.Type().Underlying().(*types.Basic); ok && b.Info()&types.IsNumeric != 0 {
-					missing = append(missing, prm.Name()+" (converted to "+cv.Type().String()+" before signing: lossy)")
+					missing = append(missing, slots[i].name+" (converted to "+cv.Type().String()+" before signing: lossy)")
 				}
 			}
 		}
 	})
-	if len(asm.Params) == 4 {
-		for _, prm := range asm.Params[1:3] {
-			if !exact[prm] {
-				missing = append(missing, prm.Name()+" (does not enter the signed payload as itself)")
+	if len(slots) == 4 {
+		for i := 1; i < 3; i++ {
+			if !exact[i] {
+				missing = append(missing, slots[i].name+" (does not enter the signed payload as itself)")
 			}
 		}
+	} else {
+		missing = append(missing, "assemble has "+itoa(len(slots))+" inputs, expected method, identity, nonce and arguments")
 	}
 	r.Check(len(missing) == 0 && len(rets) > 0, "hash-covers", "request.assemble", asm.Pos(),
 		"signed bytes derive from method, identity, nonce and args",
@@ -619,15 +859,16 @@ func checkHashCovers(p *an.Prog, r *an.Run) {
 				continue
 			}
 			okHash = true
-			args := c.Common().Args
+			args := slotArgs(asm, c)
 			idField := "NodeID"
 			if typ == "AddressRequest" {
 				idField = "Address"
 			}
 			want := []string{"Method", idField, "Nonce", "ExtraArgs"}
 			for i, w := range want {
-				if i >= len(args) {
+				if i >= len(args) || args[i] == nil {
 					okHash = false
+					why = append(why, "cannot see what is passed to assemble as its input "+itoa(i))
 					continue
 				}
 				dd := p.Derives(0, args[i])
@@ -985,6 +1226,59 @@ func reachBlocks(b *ssa.BasicBlock) []*ssa.BasicBlock {
 
 // ---------------------------------------------------------------------------
 
+// checkNonceKeptOnRefusal: a refusal by the nonce store itself (stale or not larger than the remembered nonce) leaves
+// the remembered nonce as it was: in each driver's CheckAndSaveNonce no write or delete in the nonce space is followed
+// by a refusing return (other than the failure of that very write).
+func checkNonceKeptOnRefusal(p *an.Prog, r *an.Run) {
+	n := 0
+	for _, d := range p.Implementations(p.Iface("pool/store", "NonceStore")) {
+		kind := driverKind(d)
+		m := p.MethodOf(d, "CheckAndSaveNonce")
+		if kind == "" || m == nil {
+			continue
+		}
+		r.Analysed(an.FuncName(m))
+		var bad []string
+		for _, o := range driverOps(p, d, m) {
+			if (o.Kind != opWrite && o.Kind != opDelete) || !o.inSpace("nonce") || o.In == nil {
+				continue
+			}
+			n++
+			fn := o.In.Parent()
+			cut := map[an.Edge]bool{}
+			if c, ok := o.In.(ssa.CallInstruction); ok {
+				for _, e := range an.ErrEdges(c).Fail {
+					cut[e] = true
+				}
+			}
+			refusing := func(in ssa.Instruction) bool {
+				ret, ok := in.(*ssa.Return)
+				if !ok {
+					return false
+				}
+				cls, v := returnClass(ret)
+				if cls != "nonnil" {
+					return false
+				}
+				// the failure of the write itself, handed back
+				if c, ok := o.In.(ssa.CallInstruction); ok && v != nil {
+					for _, ev := range an.ErrValues(c) {
+						if ev == v {
+							return false
+						}
+					}
+				}
+				return true
+			}
+			if in := an.PathAvoiding(fn, o.In, nil, refusing, cut); in != nil {
+				bad = append(bad, "the "+o.Kind.String()+" in the nonce space at "+p.Pos(o.In.Pos())+" can be followed by the refusal at "+p.Pos(in.Pos())+": a refused request changes what the store remembers for the identity (an ancient replay would wipe the high-water mark and re-open every recent request for replay)")
+			}
+		}
+		r.Check(len(bad) == 0, "nonce-kept-on-refusal", kind, m.Pos(), "no nonce-space write precedes a refusal", "%s", strings.Join(bad, "; "))
+	}
+	r.Floor("nonce-writes", n, 2)
+}
+
 func runC06(p *an.Prog, r *an.Run, tier string) {
 	a := buildAuth(p)
 	r.Floor("signed-endpoints", len(a.endpoints), 7)
@@ -993,6 +1287,7 @@ func runC06(p *an.Prog, r *an.Run, tier string) {
 	// and identity (same rule as C04.hash-covers). A rounded nonce lets a forged, nonce-raised copy through, which then
 	// consumes the owner's nonce and leaves every trace a valid request leaves.
 	checkHashCovers(p, r)
+	checkNonceKeptOnRefusal(p, r)
 	for _, w := range a.wrappers {
 		name := an.FuncName(w)
 		r.Analysed(name)
